@@ -6,7 +6,7 @@ usage: mksites.py <binary> <out>"""
 import re, subprocess, sys, os
 binf, out = sys.argv[1], sys.argv[2]
 dis = subprocess.run(['objdump', '-d', '--no-show-raw-insn', binf], capture_output=True, text=True).stdout
-pat = re.compile(r'^\s*([0-9a-f]+):\s+call\s+[0-9a-f]+ <(__tsan_atomic[0-9a-z_]+|__atomic_(?:load|store|exchange|compare_exchange))(?:@plt)?>')
+pat = re.compile(r'^\s*([0-9a-f]+):\s+call\s+[0-9a-f]+ <(__tsan_atomic[0-9a-z_]+|__atomic_(?:load|store|exchange|compare_exchange)|__tsan_(?:unaligned_)?(?:read|write|read_write)(?:1|2|4|8|16)|__tsan_vptr_(?:update|read)|__tsan_(?:read|write)_range)(?:@plt)?>')
 sites = []
 for line in dis.splitlines():
     m = pat.match(line)
